@@ -431,6 +431,8 @@ class Check:
 
         # ---- verdict ----
         os.makedirs(REPLAYS, exist_ok=True)
+        for old in glob.glob(os.path.join(REPLAYS, f"{self.pid}-*.json")):
+            os.remove(old)
         known = [f for f in load_known() if f.get("property") == self.pid and f.get("status") == "known"]
         out_lines, new_viol, known_hit = [], [], {}
         seen_sig = set()
